@@ -49,6 +49,7 @@ type Module struct {
 	TypeParams   string                       `json:"type_params"`   // binders of every definition, e.g. "{α : Type} [C19.Num α]"
 	StructParams string                       `json:"struct_params"` // binders of every generated structure, e.g. "(α : Type)"
 	TypeArgs     string                       `json:"type_args"`     // arguments of a generated structure where it is used, e.g. "α"
+	ParamArgs    string                       `json:"type_param_args"` // explicit arguments for type_params in calls between definitions, e.g. "H"
 	Structs      []*StructCfg                 `json:"structs"`       // struct types of the repo that become Lean structures
 	Ops          map[string]map[string]string `json:"ops"`           // Go type -> templates for its operators, literals, conversions
 	Ignore    []string          `json:"ignore_calls"`       // statement calls without meaning for the model (logging)
@@ -226,6 +227,16 @@ func (t *translator) loadPkg(dir string) *pkgInfo {
 	return p
 }
 
+// fileOf: the file of the package that contains the node (its imports decide how package names are read)
+func (p *pkgInfo) fileOf(n ast.Node) *ast.File {
+	for f := range p.imports {
+		if f.FileStart <= n.Pos() && n.End() <= f.FileEnd {
+			return f
+		}
+	}
+	return nil
+}
+
 func recvName(fd *ast.FuncDecl) string {
 	if fd.Recv == nil || len(fd.Recv.List) == 0 {
 		return ""
@@ -306,12 +317,7 @@ func (t *translator) under(tp string) string {
 		if _, isStruct := te.(*ast.StructType); isStruct {
 			return tp
 		}
-		var anyFile *ast.File
-		for f := range p.imports {
-			anyFile = f
-			break
-		}
-		tp = t.typeOf(p, anyFile, te)
+		tp = t.typeOf(p, p.fileOf(te), te)
 	}
 	return tp
 }
@@ -333,6 +339,9 @@ func (t *translator) leanType(tp string) string {
 			return "(" + n + " " + t.mod.TypeArgs + ")"
 		}
 		return n
+	}
+	if l, ok := t.mod.LeanTypes[tp]; ok {
+		return l
 	}
 	u := t.under(tp)
 	if strings.HasPrefix(u, "[]") {
@@ -981,18 +990,7 @@ func (ft *ftrans) selector(c *ast.SelectorExpr, e env, pre *[]prelude) val {
 								}
 							}
 						}
-						var anyFile *ast.File
-						for f, _ := range p.imports {
-							if anyFile == nil || f.Pos() < anyFile.Pos() {
-								anyFile = f
-							}
-						}
-						// the file that declares the struct decides how its field types are read
-						for f := range p.imports {
-							if f.Pos() <= st.Pos() && st.End() <= f.End() {
-								anyFile = f
-							}
-						}
+						anyFile := p.fileOf(st)
 						return val{s: "(" + atom(x.s) + "." + nm.Name + ")", t: ft.t.typeOf(p, anyFile, fl.Type)}
 					}
 				}
@@ -1234,6 +1232,13 @@ func (ft *ftrans) argKeys(x ast.Expr, e env) []string {
 	if cv := ft.constOf(x, e); cv != nil {
 		keys = append(keys, cv.render())
 	}
+	if sel, ok := y.(*ast.SelectorExpr); ok {
+		if id, ok := sel.X.(*ast.Ident); ok && id.Obj == nil {
+			if path, ok := ft.f.pkg.imports[ft.f.file][id.Name]; ok {
+				keys = append(keys, path+"."+sel.Sel.Name) // a variable or constant of a library package, by name
+			}
+		}
+	}
 	return keys
 }
 
@@ -1378,6 +1383,9 @@ func (ft *ftrans) callFn(g *fn, recv *val, args []ast.Expr, e env, pre *[]prelud
 		as = append(as, ft.t.paramCallee(x).PName)
 	}
 	term := ft.t.mod.Namespace + "." + g.cfg.Lean
+	if ft.t.mod.ParamArgs != "" {
+		term += " " + ft.t.mod.ParamArgs
+	}
 	if len(as) > 0 {
 		term += " " + strings.Join(as, " ")
 	}
@@ -1432,6 +1440,9 @@ func (ft *ftrans) call(c *ast.CallExpr, e env, pre *[]prelude) val {
 		c2.Fun = f.X
 		return ft.call(&c2, e, pre)
 	case *ast.ArrayType:
+		if id, ok := f.Elt.(*ast.Ident); ok && f.Len == nil && (id.Name == "byte" || id.Name == "uint8") && id.Obj == nil && len(c.Args) == 1 {
+			return ft.convert("[]byte", ft.expr(c.Args[0], e, pre))
+		}
 		failf("conversion to a slice type is outside the subset")
 	case *ast.Ident:
 		if f.Obj != nil {
@@ -1483,6 +1494,9 @@ func (ft *ftrans) call(c *ast.CallExpr, e env, pre *[]prelude) val {
 				}
 				// library functions are named by the import path, not by the alias the file gives the package
 				name := path + "." + f.Sel.Name
+				if _, isType := ft.t.mod.LeanTypes[name]; isType && len(c.Args) == 1 {
+					return ft.convert(name, ft.expr(c.Args[0], e, pre)) // conversion to a library type with a configured model
+				}
 				if cal := ft.findCallee(name, c.Args, e); cal != nil {
 					return ft.applyCallee(cal, "", c.Args, e, pre)
 				}
@@ -1534,6 +1548,8 @@ func (ft *ftrans) convert(to string, v val) val {
 		return val{s: "(" + subst(tpl, "", []string{atom(v.s)}) + ")", t: to}
 	}
 	switch {
+	case ut == uf && ut != "" && !strings.HasPrefix(ut, "untyped"):
+		return val{s: v.s, t: to, cv: v.cv} // same underlying type
 	case (ut == "string" || ut == "[]byte") && (uf == "string" || uf == "[]byte"):
 		// byte strings and byte slices are both byte lists (a conversion copies: value semantics)
 		return val{s: v.s, t: to, cv: v.cv}
@@ -2780,12 +2796,7 @@ func (t *translator) emitStruct(sc *StructCfg) (txt string, errmsg string) {
 	if !ok {
 		failf("struct type not found")
 	}
-	var file *ast.File
-	for f := range p.imports {
-		if f.Pos() <= st.Pos() && st.End() <= f.End() {
-			file = f
-		}
-	}
+	file := p.fileOf(st)
 	var b strings.Builder
 	var left []string
 	var fields []string
